@@ -84,14 +84,17 @@ PROPS = {
         e.C10,
         explanation="Shape of the two-deque engine: the progress counter is incremented once per unwrap_stackitem call, reset in every progress branch and before the loop, compared with the literal 100, and its RuntimeError is raised inside the containment try; "
                     "the elaborate_frame result is dispatched over exactly the four documented shapes (the replace/insert condition is checked as a boolean function of its atoms; prune removes depth >= the frame's depth; insert drops exactly one queued copy); "
-                    "yields_frames wraps in FrameIterator and only FrameIterators are stepped; PRUNE is (); queue accesses are guarded.",
-        decides=["ENG-1", "ENG-2", "YF-1", "CONT-3"],
+                    "yields_frames wraps in FrameIterator and only FrameIterators are stepped; PRUNE is (); queue accesses are guarded. "
+                    "By evaluation (engine MINI) and reaching definitions: the next_inner handed to elaborate_frame is, by identity, the head of the elaboration queue or None (ENG-8, seven queue shapes); "
+                    "no in-place change of a local can reach an object a hook returned (ENG-9); the loop that drains a hook's frame iterator leaves only through its StopIteration / Exception handlers, never after a count (ENG-10); "
+                    "stack items are never tested for truth (TRUTH-1/2/3).",
+        decides=["ENG-1", "ENG-2", "ENG-8", "ENG-9", "ENG-10", "YF-1", "CONT-3", "TRUTH-1", "TRUTH-2", "TRUTH-3"],
         not_decided=["equality with a reference interpretation of the rules on every item tree (finding F7: depth bookkeeping after nested inserts)", "index arithmetic on depths"],
         assumptions=BASE_ASSUME,
         level_text="Static structural check of the engine's dispatch and guard discipline; necessary conditions of the documented rules, not a behavioural equivalence.",
         level_note="Behaviour over run-time item trees is not decided.",
-        technique="static analysis: structural/dispatch-shape rules, truth tables over condition atoms, CFG must-dataflow",
-        design_ref="DESIGN.md section 4, C10",
+        technique="static analysis: structural/dispatch-shape rules, truth tables over condition atoms, CFG must-dataflow and reaching definitions, abstract evaluation of code fragments over symbolic queue contents (engine MINI)",
+        design_ref="DESIGN.md section 4, C10; sections 19, 20",
     ),
     "C11": S(
         e.C11 + [e.cont1_2, e.opt1, e.opt2],
@@ -110,8 +113,8 @@ PROPS = {
         registry.C12 + [safety.idkey1, safety.eqkey1],
         explanation="The dispatch registry is an IdentityDict; inside IdentityDict every keyed access wraps the key in id(), every store keeps the key object as element 0, every value accessor projects element 1 (sibling agreement); "
                     "get_code has a rebinding+continue case for partial, MethodType, classmethod, staticmethod and __wrapped__ and leaves its loop only through the final break; nested names are resolved through co_consts by co_name; "
-                    "registration is an unconditional item store keyed by get_code(code, *names) (latest wins), dispatch falls back only on KeyError; every customize option is forwarded in the decorator form and has an effect in customize_it.",
-        decides=["REG-1", "REG-2", "REG-3", "REG-4", "REG-5", "REG-6"],
+                    "registration is an unconditional item store keyed by get_code(code, *names) (latest wins), dispatch falls back only on KeyError; every customize option is forwarded in the decorator form and has an effect in customize_it; IdentityDict.pop tells 'no default given' from default=None by a private sentinel (REG-9).",
+        decides=["REG-1", "REG-2", "REG-3", "REG-4", "REG-5", "REG-6", "REG-7", "REG-8", "REG-9"],
         not_decided=["inspect.unwrap's behaviour", "arbitrary wrapper towers at run time"],
         assumptions=BASE_ASSUME,
         level_text="Static sibling-agreement and option-liveness check. Found F3 (hide_line dead in both forms), repaired in /repo.",
@@ -165,8 +168,9 @@ PROPS = {
         explanation="Protocol of the racing-thread snapshot in _lowlevel_cpython_311.inspect_frame: every read through the interpreter-frame pointer (f_frame.contents, iframe fields, addressof, py_object array construction, slot reads) lies inside the retry loop's try; "
                     "the validity token f_lasti is sampled before the first raw read of each attempt; on the CFG, an `assert frame.f_lasti == lasti_before` re-check lies on every path from the raw header reads to the first slot read, between consecutive slot reads, "
                     "and between the last raw read and the acceptance of the snapshot; the AssertionError handler cannot fall through to acceptance; the loop is bounded by a literal and exhaustion raises. "
-                    "unwrap_thread returns no frames unless the frame exists and the thread was alive before and after sys._current_frames() (truth table over three atoms). ctypes layouts agree with the headers.",
-        decides=["SNAP-1", "SNAP-2", "SNAP-3", "SNAP-4", "SNAP-5", "THR-1", "NULL-1", "LAY-311", "LAY-310"],
+                    "unwrap_thread returns no frames unless the frame exists and the thread was alive before and after sys._current_frames() (truth table over three atoms). ctypes layouts agree with the headers; "
+                    "the 3.9 / 3.10 reader's bound on the block count admits 0..CO_MAXBLOCKS inclusive (BLK-2) and its per-block bounds what each interpreter stores (BLK-1); the loop that drains a thread's frame iterator has no item cap (ENG-10).",
+        decides=["SNAP-1", "SNAP-2", "SNAP-3", "SNAP-4", "SNAP-5", "SNAP-8", "THR-1", "NULL-1", "LAY-311", "LAY-310", "BLK-1", "BLK-2", "ENG-10"],
         not_decided=["that the re-check protocol is sufficient under every interleaving (the GIL-switch argument in the source comments)", "that reported frames belong to the thread", "exactness for a blocked thread",
                      "_lowlevel_cpython_310 has no snapshot re-validation at all; SNAP is scoped to the 3.11+ module"],
         assumptions=BASE_ASSUME + FACT_ASSUME,
@@ -179,7 +183,7 @@ PROPS = {
         slices.C04 + [safety.esc1, safety.idkey1],
         explanation="Three necessary conditions of running-stack slicing, and a sibling check: the limit-trimming condition of unwrap_stackslice as a truth table over (inner is None, outer is None): the head is kept iff only outer is given; "
                     "the argument mapping of extract_since / extract_until onto StackSlice (including the f_back walk for a frame-valued limit) and keyword-only construction of every StackSlice; "
-                    "get_true_caller skips exactly stackscope's own non-test modules and the singledispatch wrapper; the three built-in unwrappers agree (running -> StackSlice(outer=frame), suspended -> (frame, awaited)).",
+                    "get_true_caller skips exactly stackscope's own non-test modules and the singledispatch wrapper; the three built-in unwrappers agree (running -> StackSlice(outer=frame), suspended -> (frame, awaited)); every frame unwrap_stackslice hands out (other than on its error path) is dominated, on the CFG, by the limit trimming.",
         decides=["SLC-1", "SLC-2", "SLC-3", "SLC-4", "SLC-5", "SLC-6", "SLC-7", "SLC-8"],
         not_decided=["all index arithmetic (index(inner) - 1, [to_idx:from_idx:-1], greenlet stitching, try_from): run-time list positions", "other-thread slices (outside the property's quantifier; see DESIGN.md observations)"],
         assumptions=BASE_ASSUME,
@@ -289,13 +293,16 @@ PROPS = {
         cc.C15 + [slices.slc6, safety.esc1],
         explanation="Thin: unwrap_greenlet as a truth table over its four tests (no frame / alive / is the calling greenlet / has a parent): suspended -> StackSlice(inner=gr_frame); dead or unstarted -> no frames; "
                     "running but not the caller's -> RuntimeError before anything is taken from the caller's own stack; the caller's greenlet -> its own part of the running stack (GRN-1); greenlet_getcurrent is greenlet's own "
-                    "getcurrent whenever greenlet is importable, the placeholder only under except ImportError (GRN-2); the walk through greenlet parents ends when there is no parent, not when a greenlet has no frame (SLC-6).",
-        decides=["GRN-1", "GRN-2", "SLC-6", "LOC-1"],
-        not_decided=["greenback bridges (await_ / shim elaborators: run-time f_locals of third-party frames)", "frame identity along f_back chains", "finding F8"],
+                    "getcurrent whenever greenlet is importable, the placeholder only under except ImportError (GRN-2); the walk through greenlet parents ends when there is no parent, not when a greenlet has no frame (SLC-6). "
+                    "The three greenback hooks are evaluated (engine MINI) on their cases: a bridge frame with further frames inward returns None; as the innermost frame (or, for await_, suspended in greenlet.switch()) the shim continues "
+                    "into the suspended child greenlet, else orig_coro, the trampoline into orig_coro, await_ into its coro local; each hook marks its frame hidden in every case (GRN-3, GRN-4); "
+                    "the outcome / greenlet glue hides Value.send and Error.send, capture / acapture and greenlet.switch (GRN-5, evaluated with module objects as symbolic attribute paths).",
+        decides=["GRN-1", "GRN-2", "GRN-3", "GRN-4", "GRN-5", "SLC-6", "LOC-1"],
+        not_decided=["that greenback's frames carry the locals the hooks read (LOC-1 compares the names with the installed source, nothing more)", "frame identity along f_back chains", "finding F8"],
         assumptions=BASE_ASSUME + ["LOC-1 reads (never imports) the trio / greenback sources installed for the interpreter that runs the check (/venv); where a distribution is absent the comparison is skipped and said so in the evidence"],
-        level_text="Thin static check: the lifecycle case table of unwrap_greenlet and two binding / walk clauses; greenback bridging is not decided.",
+        level_text="Thin static check: the lifecycle case table of unwrap_greenlet, two binding / walk clauses, and the case tables of the three greenback hooks.",
         level_note="Thin.",
-        technique="static analysis: abstract evaluation of unwrap_greenlet under every assignment of its tests, binding-site rule, loop-control rule",
+        technique="static analysis: abstract evaluation of unwrap_greenlet under every assignment of its tests and of the greenback hooks / glue functions on symbolic frames (engine MINI), binding-site rule, loop-control rule",
         design_ref="DESIGN.md section 13.4",
     ),
 }
